@@ -1,4 +1,4 @@
-package oracle
+package c13
 
 import (
 	"fmt"
@@ -6,6 +6,7 @@ import (
 
 	"github.com/moov-io/ach"
 	"verif/harness/gen"
+	. "verif/harness/oracle"
 )
 
 type entrySnap struct {
